@@ -160,6 +160,29 @@ class is_flag_active_visitor<Flag, flag_and>""")]),
  dict(name='copy-back-missing-history', prop='C15', rule='C15.fields', edits=[(B, "         m_history = rhs.m_history;\n         m_event_processing = rhs.m_event_processing;", "         m_event_processing = rhs.m_event_processing;")]),
  dict(name='serialize-back11-missing-history', prop='C16', rule='C16.fields', edits=[(B11, "        ar & m_history;\n", "")]),
 
+ dict(name='poolloop-mp11-no-restart', prop='C04', rule='C04.pool-loop', edits=[(MP, """            // Start from the beginning, we might be able to process
+            // events that were deferred before.
+            it = event_pool.events.begin();""", """            // Continue with the next event.
+            it++;""")]),
+ dict(name='poolloop-mp11-seq-always', prop='C05', rule='C04.pool-loop', edits=[(MP, """            if (!(*result & process_result::HANDLED_DEFERRED))
+            {
+                event_pool.cur_seq_cnt += 1;
+            }""", """            event_pool.cur_seq_cnt += 1;""")]),
+ dict(name='occurrence-mp11-no-deferral-test', prop='C05', rule='C05.before-dispatch', edits=[('include/boost/msm/backmp11/common_types.hpp', "if ((m_seq_cnt == seq_cnt) || sm.is_event_deferred(m_event))", "if (m_seq_cnt == seq_cnt)")]),
+ dict(name='stamp-mp11-swapped', prop='C05', rule='C05.before-dispatch', edits=[(MP, """        const uint16_t seq_cnt = next_rtc_seq ? event_pool.cur_seq_cnt
+                                              : event_pool.cur_seq_cnt - 1;""", """        const uint16_t seq_cnt = next_rtc_seq ? event_pool.cur_seq_cnt - 1
+                                              : event_pool.cur_seq_cnt;""")]),
+ dict(name='exit-mp11-forward-before-entry', prop='C09', rule='C09.forward', edits=[(MPT, """            target.on_entry(event, fsm);
+            if constexpr (has_exit_pseudostate_be_tag<Target>::value)
+            {
+                // Execute the second part of the compound transition.
+                target.forward_event(*sm.m_root_sm, event);
+            }""", """            if constexpr (has_exit_pseudostate_be_tag<Target>::value)
+            {
+                // Execute the second part of the compound transition.
+                target.forward_event(*sm.m_root_sm, event);
+            }
+            target.on_entry(event, fsm);""")]),
  # ---- behaviour-preserving edits: the checks must stay silent
  dict(name='refactor-rename-local', prop='C02', refactor=True, edits=[(B, """            HandledEnum res = ROW::action_call(fsm,evt,
                              ::boost::fusion::at_key<current_state_type>(fsm.m_substate_list),
